@@ -390,14 +390,13 @@ fn gen_cap_break(out: &mut Out, rng: &mut Rng, lz13: bool, thorough: bool) {
 fn gen_top_of_domain(out: &mut Out, rng: &mut Rng, op: &'static str, thorough: bool) {
     const B: usize = 1 << 24;
     // quick: three 16 MiB inputs (each needs several 128 MiB arrays in the Lean driver); the rest in thorough
+    // quick keeps to the largest legal input, 2^24 - 1 (each 16 MiB input costs several seconds of page
+    // faults on 128 MiB arrays in the driver); its neighbours and the >= 2^24 tie-only cases run in thorough
     let k = rng.below(2) as usize;
     out.top(op, k, B - 1, rng.next());
-    if thorough || op == "t10" {
-        // (the LZ13 stream runs in two profiles: its quick tier keeps to 2^24 - 1 and 2^24)
-        out.top(op, 1 - k, B - 2, rng.next());
-    }
-    out.top(op, rng.below(2) as usize, B, rng.next());
     if thorough {
+        out.top(op, 1 - k, B - 2, rng.next());
+        out.top(op, rng.below(2) as usize, B, rng.next());
         out.top(op, rng.below(2) as usize, B + 1, rng.next());
         out.top(op, 1, B - 1, rng.next());
         out.top(op, 0, B - 2, rng.next());
